@@ -142,6 +142,7 @@ package bpmn
 //@             isTrace(ev(evlen - 2)) && evch(ev(evlen - 2)) == ref(gw.wiring.tracer) && is(evval(ev(evlen - 2)), CancellationFlowNodeTrace) &&
 //@             isCall(ev(evlen - 1)) && evch(ev(evlen - 1)) == code("tracing|ISenderHandle.Done")
 //@   loop 1 for
+//@     cancels ctx
 //@     invariant gw.wiring != nil && pgInv(gw) && gw.noOfIncomingFlows >= 1
 //@     invariant gw.noOfIncomingFlows == old(gw.noOfIncomingFlows) && gw.wiring == old(gw.wiring) && gw.mch == old(gw.mch)
 //@     iter ensures [arrival-below-threshold-parks]
@@ -366,10 +367,10 @@ package bpmn
 //@   ensures result.t.forward != nil && result.t.response != nil && result.t.done != nil && !closed(result.t.done)
 
 //@ func (*taskTraceBuilder).Context
-//@   prop C08
+//@   prop C08 C07
 //@   flag emits none
 //@   modifies taskTrace.ctx
-//@   ensures result == b && b.t == old(b.t)
+//@   ensures result == b && b.t == old(b.t) && b.t.ctx == ctx
 //@ func (*taskTraceBuilder).Timeout
 //@   prop C08
 //@   flag emits none
@@ -460,8 +461,11 @@ package bpmn
 // The goroutine serving one task request: one TaskTrace, then either the context ends (no answer is
 // relayed) or exactly one flowAction carrying the answer and all outgoing flows is sent, last.
 //@ func (*genericTask).run$1
-//@   prop C01 C08 C10
+//@   prop C01 C08 C10 C07
 //@   requires task.wiring != nil
+//@   ensures [a-task-request-carries-the-instance-context] forall p int :: old(evlen) <= p && p < evlen && isTrace(ev(p)) && is(evval(ev(p)), *taskTrace) ==>
+//@             evval(ev(p)).(*taskTrace).ctx == ctx
+//@   ensures [at-most-one-task-request-per-activation] count(Trace, *taskTrace) <= old(count(Trace, *taskTrace)) + 1
 //@   ensures [at-most-one-reply] forall p int, q int :: old(evlen) <= p && p < q && q < evlen &&
 //@             isSend(ev(p)) && evch(ev(p)) == m.response ==> !(isSend(ev(q)) && evch(ev(q)) == m.response)
 //@   ensures [reply-is-last] forall p int :: old(evlen) <= p && p < evlen && isSend(ev(p)) && evch(ev(p)) == m.response ==> p == evlen - 1
@@ -501,6 +505,7 @@ package bpmn
 //@   ensures [exit-by-cancel-or-context] isTrace(ev(evlen - 1)) && is(evval(ev(evlen - 1)), CancellationFlowNodeTrace) ||
 //@             (isSend(ev(evlen - 1)) && is(evval(ev(evlen - 1)), bool) && evval(ev(evlen - 1)).(bool) && task.active == 0)
 //@   loop 1 for
+//@     cancels ctx
 //@     invariant task.wiring != nil && task.wiring == old(task.wiring) && task.mch == old(task.mch)
 //@     iter ensures [request-spawns-one-worker]
 //@       isRecv(ev(old(evlen))) && evch(ev(old(evlen))) == task.mch && is(evval(ev(old(evlen))), nextTaskActionMessage) ==>
@@ -659,6 +664,7 @@ package bpmn
 //@   ensures [termination-is-the-last-trace] count(Trace, TerminationTrace) == old(count(Trace, TerminationTrace)) + 1 ==>
 //@             isTrace(ev(evlen - 3)) && is(evval(ev(evlen - 3)), TerminationTrace)
 //@   loop 1 for
+//@     cancels ctx
 //@     invariant tokFrame(f)
 //@     invariant evlen >= old(evlen) + 2 && isTrace(ev(old(evlen))) && is(evval(ev(old(evlen))), NewFlowTrace)
 //@     iter ensures [a-step-that-forks-moves-the-current-token] count(Trace, FlowTrace) > old(count(Trace, FlowTrace)) ==>
@@ -707,6 +713,7 @@ package bpmn
 //@   recvinv gatewayProbingReport: forall a int :: off(msg.result) <= a && a < off(msg.result) + len(msg.result) ==>
 //@             0 <= at(msg.result, a) && at(msg.result, a) < len(gw.nonDefaultSequenceFlows)
 //@   loop 1 for
+//@     cancels ctx
 //@     invariant gw.wiring != nil && gw.probing != nil && gw.wiring == old(gw.wiring) && gw.mch == old(gw.mch) && gw.probing == old(gw.probing) &&
 //@               gw.element == old(gw.element) && gw.defaultSequenceFlow == old(gw.defaultSequenceFlow) && gw.nonDefaultSequenceFlows == old(gw.nonDefaultSequenceFlows)
 //@     iter ensures [report-routes-to-the-first-true-flow]
@@ -844,12 +851,21 @@ package bpmn
 //@     invariant matches == joinMatches(gw, rk1) + rowCount(heap("E:id.Id", "(Array Int (Array Int Iface))")[base(gw.awaiting)], off(gw.awaiting), rk2, gw.arrived[i])
 
 // run: fork on all true flows / default / error; join bookkeeping per message.
+//@ func (*flowTracker).activity
+//@   prop C05 C07
+//@   modifies nothing
+//@   flag emits none
+//@   ensures result == tracker.activityCh
+
 //@ func (*inclusiveGateway).run
 //@   prop C05 C07
 //@   requires gw.wiring != nil && gw.flowTracker != nil
+//@   requires [the-tracker's-activity-channel-is-not-the-context's] gw.flowTracker.activityCh != ctxdone(ctx)
 //@   recvinv gatewayProbingReport: forall a int :: off(msg.result) <= a && a < off(msg.result) + len(msg.result) ==>
 //@             0 <= at(msg.result, a) && at(msg.result, a) < len(gw.nonDefaultSequenceFlows)
 //@   loop 1 for
+//@     cancels ctx
+//@     invariant activity != ctxdone(ctx)
 //@     invariant gw.wiring != nil && gw.flowTracker != nil && gw.wiring == old(gw.wiring) && gw.mch == old(gw.mch) && gw.element == old(gw.element) &&
 //@               gw.defaultSequenceFlow == old(gw.defaultSequenceFlow) && gw.nonDefaultSequenceFlows == old(gw.nonDefaultSequenceFlows) && gw.flowTracker == old(gw.flowTracker)
 //@     iter ensures [fork-resets-the-activation]
@@ -883,6 +899,7 @@ package bpmn
 //@         is(evval(ev(old(evlen) + 1)).(ErrorTrace).Error, InclusiveNoEffectiveSequenceFlows) &&
 //@         evval(ev(old(evlen) + 1)).(ErrorTrace).Error.(InclusiveNoEffectiveSequenceFlows).InclusiveGateway == gw.element
 //@   loop 2 range m.result
+//@     invariant activity != ctxdone(ctx)
 //@     invariant gw.wiring != nil && gw.flowTracker != nil && gw.wiring == old(gw.wiring) && gw.mch == old(gw.mch) && gw.element == old(gw.element) &&
 //@               gw.defaultSequenceFlow == old(gw.defaultSequenceFlow) && gw.nonDefaultSequenceFlows == old(gw.nonDefaultSequenceFlows) && gw.flowTracker == old(gw.flowTracker)
 //@     invariant evlen == athead(1, evlen) + 1 && gw.probing == nil && gw.sync == athead(1, gw.sync) && gw.synchronized == athead(1, gw.synchronized) && gw.activated == athead(1, gw.activated)
@@ -936,12 +953,13 @@ package bpmn
 // The message loop: the cease-process-set trace is sent at most once, only on the completion signal, and ends the
 // loop; a throw message instantiates at most one process, counted before its watcher is started.
 //@ func (*ProcessSet).run
-//@   prop C18
+//@   prop C18 C07
 //@   ensures [at-most-one-cease-trace] count(Trace, CeaseProcessSetTrace) <= old(count(Trace, CeaseProcessSetTrace)) + 1
 //@   ensures [cease-trace-only-on-the-completion-signal-and-last] count(Trace, CeaseProcessSetTrace) == old(count(Trace, CeaseProcessSetTrace)) + 1 ==>
 //@             evlen >= old(evlen) + 2 && isTrace(ev(evlen - 1)) && is(evval(ev(evlen - 1)), CeaseProcessSetTrace) &&
 //@             isRecv(ev(evlen - 2)) && evch(ev(evlen - 2)) == ps.done
 //@   loop 1 for
+//@     cancels ctx
 //@     invariant count(Trace, CeaseProcessSetTrace) == old(count(Trace, CeaseProcessSetTrace))
 //@     invariant ps.done == old(ps.done) && ps.mch == old(ps.mch)
 //@     invariant [a-process-not-yet-created-holds-no-lock] forall q *Process :: q > alloc ==> held(mu(q.complete)) == 0
@@ -1049,6 +1067,7 @@ package bpmn
 //@ func (*harness).run
 //@   prop C10 C07
 //@   loop 1 for
+//@     cancels ctx
 //@     invariant node.mch == old(node.mch) && node.activity == old(node.activity)
 //@     iter ensures [activation-marks-active-asks-once-and-answers-with-the-relay]
 //@       isRecv(ev(old(evlen))) && evch(ev(old(evlen))) == node.mch && is(evval(ev(old(evlen))), nextHarnessActionMessage) ==>
@@ -1085,6 +1104,7 @@ package bpmn
 //@   requires evt.wiring != nil && evt.satisfier != nil
 //@   requires cesShape(evt.satisfier) && cesDistinct(evt.satisfier) && cesNoneFull(evt.satisfier) && cesCommonBit(evt.satisfier)
 //@   loop 1 for
+//@     cancels ctx
 //@     invariant evt.wiring != nil && evt.wiring == old(evt.wiring) && evt.satisfier == old(evt.satisfier) && evt.mch == old(evt.mch)
 //@     invariant cesShape(evt.satisfier) && cesDistinct(evt.satisfier) && cesNoneFull(evt.satisfier) && cesCommonBit(evt.satisfier)
 //@     iter ensures [event-while-not-listening-is-dropped]
@@ -1120,6 +1140,7 @@ package bpmn
 //@   prop C06 C07
 //@   requires gw.wiring != nil
 //@   loop 1 for
+//@     cancels ctx
 //@     invariant gw.wiring != nil && gw.wiring == old(gw.wiring) && gw.mch == old(gw.mch)
 //@     iter ensures [an-activation-answers-once-with-all-outgoing-flows]
 //@       isRecv(ev(old(evlen))) && evch(ev(old(evlen))) == gw.mch && is(evval(ev(old(evlen))), nextActionMessage) ==>
@@ -1302,3 +1323,22 @@ package bpmn
 //@             (count(Spawn, code("(*subProcess).run")) == old(count(Spawn, code("(*subProcess).run"))) + 1 ==> old(sp.active) == 0)
 //@   ensures [one-request-queued-last] isSend(ev(evlen - 1)) && evch(ev(evlen - 1)) == sp.mch && is(evval(ev(evlen - 1)), nextActionMessage) &&
 //@             evval(ev(evlen - 1)).(nextActionMessage).response == result && chancap(result) == 1
+
+// The remaining node goroutines: message loops that block in a select offering the cancellation alternative and take no
+// further turn once they have observed it (C07).
+//@ func (*startEvent).run
+//@   prop C07
+//@   loop 1 for
+//@     cancels ctx
+//@ func (*endEvent).run
+//@   prop C07
+//@   loop 1 for
+//@     cancels ctx
+//@ func (*throwEvent).run
+//@   prop C07
+//@   loop 1 for
+//@     cancels ctx
+//@ func (*subProcess).run
+//@   prop C07 C12
+//@   loop 1 for
+//@     cancels ctx
